@@ -272,9 +272,12 @@ impl TypeChecker {
                     for ((_, param_name, _), arg) in type_parameters.iter().zip(type_args.iter()) {
                         let arg_type = self.type_from_annotation(arg)?;
                         concrete_type_args.push(arg_type.clone());
+                        // All parameters are replaced at once: the arguments may mention type
+                        // parameters of the same names (`Pair<B, A>` inside `fn f<A, B>`), so the
+                        // substitutions must not be composed with each other.
                         substitution
-                            .append(TypeVariable::new(param_name), arg_type)
-                            .ok();
+                            .0
+                            .push((TypeVariable::new(param_name), arg_type));
                     }
 
                     // Create instantiated struct with substituted field types
